@@ -28,6 +28,8 @@ type HarnessSpec struct {
 	Facet     string `json:"facet"`
 	NoPrune   bool   `json:"no_prune"`
 	NoReplay  bool   `json:"no_replay"` // harness cannot run natively (uses engine-only vocabulary)
+	NoBatch   bool   `json:"no_batch"`
+	Stubs     map[string]string `json:"stubs"` // repository function -> contract function in the overlay (assume-guarantee)
 }
 
 type ObResult struct {
@@ -56,6 +58,7 @@ type HarnessResult struct {
 	NSteps      int
 	NCands      int
 	NTrivial    int
+	NBatched    int
 	NAssumes    int
 	ExecMs      int64
 	SolveMs     int64
@@ -96,18 +99,23 @@ func runHarness(l *loaded, spec HarnessSpec, trace bool, dumpDir string) *Harnes
 	if spec.SliceCap > 0 {
 		m.SliceCap = spec.SliceCap
 	}
+	for from, to := range spec.Stubs {
+		m.Intrinsics[from] = exec.Redirect(to)
+	}
 	m.Deterministic = !spec.Symbolic
 	m.NoPrune = spec.NoPrune
 
 	// pruning solver: assumptions asserted as they appear
 	pr := sym.NewPrinter(m.C)
-	ps, err := newSolver("z3", 2000)
+	ps, err := newSolver("z3-new", 2000)
 	if err != nil {
 		res.Err = err.Error()
 		return res
 	}
 	defer ps.Close()
 	synced := 0
+	var nFeas int
+	var feasDur time.Duration
 	m.Feasible = func(g exec.T) bool {
 		if g.IsFalse() {
 			return false
@@ -115,6 +123,9 @@ func runHarness(l *loaded, spec HarnessSpec, trace bool, dumpDir string) *Harnes
 		if g.IsTrue() {
 			return true
 		}
+		nFeas++
+		f0 := time.Now()
+		defer func() { feasDur += time.Since(f0) }()
 		for ; synced < len(m.Events); synced++ {
 			e := m.Events[synced]
 			if e.Kind == exec.EvAssume {
@@ -134,6 +145,7 @@ func runHarness(l *loaded, spec HarnessSpec, trace bool, dumpDir string) *Harnes
 	}
 	runErr := m.Run(fn)
 	res.ExecMs = time.Since(t0).Milliseconds()
+	res.Notes = append(res.Notes, fmt.Sprintf("feasibility queries during symbolic execution: %d (%d ms)", nFeas, feasDur.Milliseconds()))
 	res.Funcs = m.SortedFuncs()
 	for k := range m.Stubs {
 		res.Stubs = append(res.Stubs, k)
@@ -164,7 +176,7 @@ func runHarness(l *loaded, spec HarnessSpec, trace bool, dumpDir string) *Harnes
 	kinds := strings.Split(spec.Solver, ",")
 	if spec.Solver == "" {
 		// fallback chain: a quick z3 attempt first, then the other back-ends with the full budget
-		kinds = []string{"z3:quick", "cvc5", "z3-new", "z3"}
+		kinds = []string{"z3-new:quick", "cvc5:half", "z3-new", "z3"}
 	}
 	type inst struct {
 		kind string
@@ -184,19 +196,21 @@ func runHarness(l *loaded, spec HarnessSpec, trace bool, dumpDir string) *Harnes
 		kind, tmo := i.kind, to
 		if strings.HasSuffix(kind, ":quick") {
 			kind = strings.TrimSuffix(kind, ":quick")
-			tmo = to / 8
+			tmo = to / 6
 			if tmo < 1500 {
 				tmo = 1500
 			}
+		}
+		if strings.HasSuffix(kind, ":half") {
+			kind = strings.TrimSuffix(kind, ":half")
+			tmo = to / 2
 		}
 		s, err := newSolver(kind, tmo)
 		if err != nil {
 			return err
 		}
 		i.s, i.p = s, sym.NewPrinter(m.C)
-		if logf != nil && i == insts[0] {
-			s.Log = logf
-		}
+
 		for _, iv := range m.Inputs {
 			s.Send(i.p.Emit(iv.Term))
 		}
@@ -231,23 +245,39 @@ func runHarness(l *loaded, spec HarnessSpec, trace bool, dumpDir string) *Harnes
 		}
 	}
 	ts := time.Now()
+	c := m.C
+	// prefix conjunctions of assumptions: pref[k] = a_1 and ... and a_k
 	var assumes []exec.Event
-	for _, e := range m.Events {
+	nAssBefore := make([]int, len(m.Events))
+	for i, e := range m.Events {
+		nAssBefore[i] = len(assumes)
 		if e.Kind == exec.EvAssume {
 			res.NAssumes++
 			assumes = append(assumes, e)
-			continue
 		}
-		// select relevant assumptions
+	}
+	qn := 0
+	checkOne := func(e exec.Event, nAss int) ObResult {
 		var rel []exec.T
-		for _, a := range assumes {
-			if a.Guard != nil && m.C.And(e.Cond, a.Guard).IsFalse() {
+		for _, a := range assumes[:nAss] {
+			if a.Guard != nil && c.And(e.Cond, a.Guard).IsFalse() {
 				continue
 			}
 			rel = append(rel, a.Cond)
 		}
 		ob := ObResult{Class: e.Class, ID: e.ID, Pos: e.Pos, Step: e.Step, Result: "unknown"}
 		q0 := time.Now()
+		if dumpDir != "" {
+			qn++
+			fp := sym.NewPrinter(m.C)
+			var sb strings.Builder
+			sb.WriteString(fp.Emit(append(rel, e.Cond)...))
+			for _, a := range rel {
+				sb.WriteString("(assert " + fp.Ref(a) + ")\n")
+			}
+			sb.WriteString("(assert " + fp.Ref(e.Cond) + ")\n(check-sat)\n")
+			os.WriteFile(fmt.Sprintf("%s/%s_q%03d_%s.smt2", dumpDir, spec.Name, qn, e.Class), []byte(sb.String()), 0o644)
+		}
 		for _, i := range insts {
 			if i.s == nil || i.s.Dead {
 				if err := start(i); err != nil {
@@ -268,7 +298,7 @@ func runHarness(l *loaded, spec HarnessSpec, trace bool, dumpDir string) *Harnes
 				continue
 			}
 			ob.Result = r.String()
-			ob.Solver = strings.TrimSuffix(i.kind, ":quick")
+			ob.Solver = strings.Split(i.kind, ":")[0]
 			if r == solve.Sat {
 				ob.Model = map[string]string{}
 				for k, v := range vals {
@@ -278,7 +308,44 @@ func runHarness(l *loaded, spec HarnessSpec, trace bool, dumpDir string) *Harnes
 			break
 		}
 		ob.Ms = time.Since(q0).Milliseconds()
-		res.Obs = append(res.Obs, ob)
+		return ob
+	}
+	// batch the engine-generated side obligations (wrap, panic, fpexc, bound): one query
+	// OR_i (O_i and prefix_i) decides them all when it is unsat; otherwise they are checked one by one.
+	batchable := func(cl string) bool { return cl == "wrap" || cl == "panic" || cl == "fpexc" || cl == "bound" }
+	batchOK := false
+	var nBatch int
+	if !spec.NoBatch {
+		var disj []exec.T
+		var pref []exec.T // pref[k] conj of first k assumptions
+		pref = append(pref, c.True)
+		for _, a := range assumes {
+			pref = append(pref, c.And(pref[len(pref)-1], a.Cond))
+		}
+		for i, e := range m.Events {
+			if e.Kind == exec.EvOblige && batchable(e.Class) {
+				disj = append(disj, c.And(e.Cond, pref[nAssBefore[i]]))
+				nBatch++
+			}
+		}
+		if nBatch > 3 {
+			be := exec.Event{Kind: exec.EvOblige, Class: "batch", ID: fmt.Sprintf("%d side obligations (wrap/panic/fpexc/bound) in one query", nBatch), Cond: c.Or(disj...)}
+			ob := checkOne(be, 0)
+			if ob.Result == "unsat" {
+				batchOK = true
+				res.Obs = append(res.Obs, ob)
+				res.NBatched = nBatch
+			}
+		}
+	}
+	for i, e := range m.Events {
+		if e.Kind != exec.EvOblige {
+			continue
+		}
+		if batchOK && batchable(e.Class) {
+			continue
+		}
+		res.Obs = append(res.Obs, checkOne(e, nAssBefore[i]))
 	}
 	res.SolveMs = time.Since(ts).Milliseconds()
 	return res
